@@ -29,6 +29,7 @@ type runner struct {
 	life hx.CaseFile
 	iw   hx.CaseFile
 	ex   hx.CaseFile
+	idc  hx.CaseFile
 }
 
 // maxSlow: after this many runs of one family ended in a watchdog timeout (a
@@ -80,6 +81,9 @@ func genCfg(r *hx.Rand, i int) reqCfg {
 	if canSendFail(c.Entry) && r.Chance(3, 20) {
 		c.SendFail = true
 	}
+	if r.Chance(1, 4) {
+		c.IDForm = []string{"none", "empty", "qualified"}[r.Intn(3)]
+	}
 	return c
 }
 
@@ -88,9 +92,10 @@ func genCfg(r *hx.Rand, i int) reqCfg {
 func genPeer(r *hx.Rand, reqs []*rstate) peerSt {
 	st := genPeerPlain(r, reqs)
 	if len(reqs) > 0 && r.Chance(1, 5) {
-		c := reqs[r.Intn(len(reqs))].cfg
-		if c.ID != st.ID {
-			st.ExtID = c.ID // a pending id, in front of the element's own id
+		rq := reqs[r.Intn(len(reqs))]
+		c := rq.cfg
+		if rq.key != st.ID && c.IDForm == "" {
+			st.ExtID = rq.key // a pending id, in front of the element's own id
 			if r.Chance(1, 2) {
 				st.Kind = c.Kind
 			}
@@ -106,8 +111,13 @@ func genPeerPlain(r *hx.Rand, reqs []*rstate) peerSt {
 	kinds := []string{"iq", "message", "presence", "foo"}
 	k := r.Intn(20)
 	if len(reqs) > 0 && k < 14 {
-		c := reqs[r.Intn(len(reqs))].cfg
-		st := peerSt{Kind: c.Kind, ID: c.ID, Typ: []string{"result", "error"}[r.Intn(2)]}
+		ri := r.Intn(len(reqs))
+		rq := reqs[ri]
+		c := rq.cfg
+		st := peerSt{Kind: c.Kind, ID: rq.key, Typ: []string{"result", "error"}[r.Intn(2)]}
+		if c.IDForm != "" {
+			st.For = &ri // a generated id: resolved when the element is sent
+		}
 		if r.Chance(3, 20) {
 			st.Kind = kinds[r.Intn(len(kinds))]
 		}
@@ -144,6 +154,13 @@ func (x *runner) finishCore(run *coreRun, acts []action, class string) {
 		x.res.Fail(run.failKey, run.failWhat, cc)
 	} else {
 		x.emitCore(run, acts, "final")
+		for _, rq := range run.reqs {
+			if rq.matched && rq.wireID != "" {
+				form := map[string]int{"none": 0, "empty": 1, "": 2, "qualified": 3}[rq.cfg.IDForm]
+				x.idc.Add(fmt.Sprintf("mkidcase %d%%nat 7%%N true %s", form, hx.CoqBool(rq.wireID == rq.cfg.ID)),
+					map[string]interface{}{"case": cc, "call": rq.cfg, "wire_id": rq.wireID})
+			}
+		}
 		x.res.Sample(map[string]interface{}{"case": cc, "labels": strings.Join(run.labels, "; ")})
 	}
 	run.teardown()
@@ -315,6 +332,16 @@ func cfg(entry, id, kind, ns, typ string, fail bool) *reqCfg {
 }
 func st(kind, id, typ string) *peerSt { return &peerSt{Kind: kind, ID: id, Typ: typ} }
 
+// idFormSchedule: one call whose request has the given id shape; the peer answers
+// with the id it saw; the call must get that reply.
+func idFormSchedule(entry, kind, typ, form, replyTyp string) []action {
+	zero := 0
+	c := &reqCfg{Entry: entry, ID: "q7", Kind: kind, NS: "", Typ: typ, IDForm: form}
+	return []action{{Op: "start", Cfg: c}, {Op: "go", I: 0}, {Op: "go", I: 0},
+		{Op: "peer", St: &peerSt{Kind: kind, Typ: replyTyp, For: &zero}}, {Op: "serve"}, {Op: "serve"}, {Op: "go", I: 0}, {Op: "serve"},
+		{Op: "close", I: 0}, {Op: "serve"}}
+}
+
 var coreCorpus = [][]action{
 	// the reply is looked up while the call is between registration and a failing send
 	{{Op: "start", Cfg: cfg("SendIQ", "x1", "iq", "", "get", true)}, {Op: "peer", St: st("iq", "x1", "result")},
@@ -352,6 +379,23 @@ var coreCorpus = [][]action{
 	{{Op: "start", Cfg: cfg("UnmarshalIQ", "b", "iq", "jabber:client", "set", false)}, {Op: "go", I: 0}, {Op: "go", I: 0},
 		{Op: "peer", St: &peerSt{Kind: "iq", ID: "q1", Typ: "get", ExtID: "b", ExtTyp: "result"}}, {Op: "serve"},
 		{Op: "peer", St: &peerSt{Kind: "message", ID: "m1", Typ: "error", ExtID: "b"}}, {Op: "serve"}, {Op: "serve"}},
+	// the four shapes of a request's id, the three kinds, both API shapes: the reply that carries
+	// the id the peer saw on the wire reaches the call
+	idFormSchedule("SendPresence", "presence", "", "empty", "error"),
+	idFormSchedule("SendPresence", "presence", "", "none", "error"),
+	idFormSchedule("SendPresence", "presence", "", "qualified", "error"),
+	idFormSchedule("EncodePresence", "presence", "", "empty", "error"),
+	idFormSchedule("SendPresenceElement", "presence", "", "none", "error"),
+	idFormSchedule("SendIQ", "iq", "get", "empty", "result"),
+	idFormSchedule("SendIQ", "iq", "set", "none", "error"),
+	idFormSchedule("SendIQ", "iq", "get", "qualified", "result"),
+	idFormSchedule("EncodeIQ", "iq", "get", "empty", "result"),
+	idFormSchedule("UnmarshalIQ", "iq", "get", "empty", "result"),
+	idFormSchedule("IterIQ", "iq", "get", "none", "result"),
+	idFormSchedule("SendMessage", "message", "chat", "empty", "error"),
+	idFormSchedule("SendMessage", "message", "chat", "qualified", "error"),
+	idFormSchedule("EncodeMessage", "message", "chat", "none", "error"),
+	idFormSchedule("SendMessageElement", "message", "normal", "none", "error"),
 	// presence and message tracking
 	{{Op: "start", Cfg: cfg("SendPresence", "p", "presence", "", "", false)}, {Op: "go", I: 0}, {Op: "go", I: 0},
 		{Op: "peer", St: st("presence", "p", "unavailable")}, {Op: "serve"},
@@ -370,6 +414,7 @@ func main() {
 	x.life = hx.CaseFile{Name: "life", Imports: importsLife, Ok: "rl_case_ok", Type: "rlcase"}
 	x.iw = hx.CaseFile{Name: "iw", Imports: importsLife, Ok: "iw_case_ok", Type: "iwcase"}
 	x.ex = hx.CaseFile{Name: "ex", Imports: importsLife, Ok: "ex_case_ok", Type: "excase"}
+	x.idc = hx.CaseFile{Name: "idc", Imports: importsLife, Ok: "id_case_ok code_gencond", Type: "idcase"}
 	xmpp.VerifSetHook(hookDispatch)
 	currentPath = filepath.Join(o.Out, "current.json")
 	defer os.Remove(currentPath)
@@ -413,7 +458,7 @@ func main() {
 		case "ibb":
 			var cc ibbCase
 			json.Unmarshal(rp.Case, &cc)
-			x.ibbReplay(cc.Actions, "replay")
+			x.ibbReplay(cc.Carrier, cc.Actions, "replay")
 		case "ibb-expect":
 			x.ibbExpectStall()
 		case "ibb-accept":
@@ -446,7 +491,8 @@ func main() {
 			x.mucReplay(acts, "corpus")
 		}
 		for _, acts := range ibbCorpus {
-			x.ibbReplay(acts, "corpus")
+			x.ibbReplay("iq", acts, "corpus")
+			x.ibbReplay("message", acts, "corpus")
 		}
 		for _, acts := range iwCorpus {
 			x.iwReplay(acts, "corpus")
@@ -484,7 +530,7 @@ func main() {
 		}
 		for i := 0; i < walks/4; i++ {
 			x.mucWalk(r.Fork(), 4+r.Intn(16))
-			x.ibbWalk(r.Fork(), 4+r.Intn(16))
+			x.ibbWalk([]string{"iq", "message"}[i%2], r.Fork(), 4+r.Intn(16))
 		}
 		for i := 0; i < walks/8; i++ {
 			x.iwWalk(r.Fork(), 3+r.Intn(12))
@@ -503,6 +549,7 @@ func main() {
 	res.CaseFiles = append(res.CaseFiles, x.life.Write(o.Out, 400)...)
 	res.CaseFiles = append(res.CaseFiles, x.iw.Write(o.Out, 400)...)
 	res.CaseFiles = append(res.CaseFiles, x.ex.Write(o.Out, 400)...)
-	res.Extra["model_cases"] = x.core.Len() + x.rx.Len() + x.muc.Len() + x.ibb.Len() + x.life.Len() + x.iw.Len() + x.ex.Len()
+	res.CaseFiles = append(res.CaseFiles, x.idc.Write(o.Out, 400)...)
+	res.Extra["model_cases"] = x.core.Len() + x.rx.Len() + x.muc.Len() + x.ibb.Len() + x.life.Len() + x.iw.Len() + x.ex.Len() + x.idc.Len()
 	res.Write(o.Out)
 }
